@@ -37,6 +37,7 @@ SecAuditLogParts ABCFHKZ
 SecAuditLogType verifc05
 SecAuditLogFormat json
 SecTmpDir %TMP%
+SecArgumentsLimit 4
 SecRule REQUEST_HEADERS:x-do "@contains match" "id:1001,phase:1,pass,log"
 SecRule REQUEST_HEADERS:x-do "@contains setvar" "id:1002,phase:1,pass,setvar:tx.leak=1,setvar:tx.score=+5"
 SecRule REQUEST_HEADERS:x-do "@contains capture" "id:1003,phase:1,pass,capture,chain"
@@ -63,6 +64,8 @@ SecRule REQUEST_HEADERS:x-do "@contains skipAfter" "id:1051,phase:5,pass,skipAft
 SecRule REQUEST_HEADERS:x-do "@contains skip," "id:1050,phase:5,pass,skip:7"
 SecRule ARGS:a "@streq x" "id:2001,phase:2,pass,log"
 SecRule ARGS "@streq x" "id:2002,phase:2,pass,log"
+SecRule ARGS:b "@streq y" "id:2011,phase:2,pass,log"
+SecRule ARGS_POST:d "@rx ." "id:2012,phase:2,pass,log"
 SecRule TX:leak "@eq 1" "id:2003,phase:2,pass,log"
 SecRule TX:0 "@rx ." "id:2004,phase:2,pass,log"
 SecRule TX:1 "@rx ." "id:2005,phase:2,pass,log"
@@ -152,7 +155,11 @@ func c05RunTx(w coraza.WAF, id string, tokens []string, probeDeny bool) (c05Outc
 	itx := tx.(*corazawaf.Transaction)
 	var o c05Outcome
 	tx.ProcessConnection("10.0.0.1", 1, "10.0.0.2", 80)
-	tx.ProcessURI("/p?a=x&b=y", "POST", "HTTP/1.1")
+	uri := "/p?a=x&b=y"
+	if has("otherArgs") {
+		uri = "/p?p1=1&p2=2&p3=3"
+	}
+	tx.ProcessURI(uri, "POST", "HTTP/1.1")
 	tx.AddRequestHeader("Host", "h")
 	tx.AddRequestHeader("Content-Type", "application/x-www-form-urlencoded")
 	if len(tokens) > 0 {
@@ -165,6 +172,9 @@ func c05RunTx(w coraza.WAF, id string, tokens []string, probeDeny bool) (c05Outc
 	body := "c=x&d=1"
 	if has("spill") {
 		body = "c=x&d=12345678901234567890"
+	}
+	if has("otherArgs") {
+		body = "q1=x&q2=1&q3=2"
 	}
 	it := tx.ProcessRequestHeaders()
 	o.PerPhase = append(o.PerPhase, intrStr(it))
@@ -485,7 +495,7 @@ func c05Binding(run *vf.Run, text string, always map[string]bool) {
 		"ctlForceReqBody": {"ForceRequestBodyVariable"}, "ctlRespAccess": {"ResponseBodyAccess"}, "ctlRmId": {"ruleRemoveByID"},
 		"ctlRmRange": {"ruleRemoveByIDRanges"}, "ctlRmTarget": {"ruleRemoveTargetByID"}, "allow": {"AllowType"}, "allowRequest": {"AllowType"},
 		"skip": {"Skip"}, "skipAfter": {"SkipAfter"}, "spill": {"requestBodyBuffer", "variables"}, "respBody": {"responseBodyBuffer", "variables"},
-		"keepReader": {"requestBodyBuffer"}, "tfCache": {"transformationCache"},
+		"keepReader": {"requestBodyBuffer"}, "tfCache": {"transformationCache"}, "otherArgs": {"variables"},
 	}
 	w, err := coraza.NewWAF(coraza.NewWAFConfig().WithDirectives(text))
 	if err != nil {
